@@ -2,7 +2,7 @@
 """Apply every seeded change (seeded/*/patch.diff) to a scratch worktree and run the quick check of
 the property it breaks: every one must be flagged (exit 1). Usage: run_seeded.py [names...]"""
 import os, sys, subprocess, json, glob, time
-SRC='/repo'; WT='/tmp/seeded-wt'; VERIF='/verif'
+SRC='/repo'; WT='/tmp/seeded-wt'; VERIF=os.environ.get('VERIF_HOME') or os.path.dirname(os.path.dirname(os.path.abspath(__file__)))
 env=dict(os.environ, GOFLAGS='-mod=mod', GOPROXY='off', GOSUMDB='off', GOTOOLCHAIN='local', VERIF_REPO=WT)
 subprocess.run(['git','-C',SRC,'worktree','remove','--force',WT],capture_output=True)
 assert subprocess.run(['git','-C',SRC,'worktree','add','--detach',WT,'HEAD'],capture_output=True).returncode==0
